@@ -117,6 +117,8 @@ def coverage_cases(tier, fi=None):
     cases.append((ss, (2, 3), [F_(1), F_(-1), F_(5, 2), F_(-5, 2), F_(0), F_(4)]))
     cases.append((ss, (1,), [F_(-3, 2)]))
     cases.append((ss, (1, 1), [F_(7, 2)]))
+    cases.append((ss, (), [F_(-19)]))           # N < |s| < 2N: a start index of N + floor(s) would be negative
+    cases.append((ss, (2,), [F_(-37, 2), F_(25)]))
     sizes = {40}
     if fi is not None:
         for n in _ast.walk(fi.node):
@@ -278,6 +280,13 @@ def check(run, prog):
         prec = [t for t in ev.trace if t[0] in ("exp-dtype", "precision-cast")]
         ck.same("R1", fi.where, "ramp precision " + tag, "the phase ramp is exponentiated at full precision before any cast", not prec,
                 found=str(prec)[:160], nontrivial=True)
+        # the "nothing to do" test must look at the shift in samples: astropy's allclose applies its absolute tolerance (1e-8) in
+        # the Quantity's own unit, so a 5 ns shift given in seconds would count as zero on a GHz-rate signal
+        from ..extapi import dim_of
+        zt = [t for t in ev.trace if t[0] == "allclose" and t[4] == "time_shift" and isinstance(t[1], Num)]
+        dimensional = [t for t in zt if dim_of(sp.sympify(t[1].expr)) not in ({}, None) or t[1].kind == "quantity"]
+        ck.same("R1", fi.where, "zero-shift test " + tag, "the early-exit test compares the shift in samples (a dimensionless number), never a Quantity in the caller's unit",
+                not dimensional, found=str([str(t[1].expr)[:60] for t in dimensional]), nontrivial=bool(zt))
         bm = [t for t in ev.trace if t[0] == "broadcast-mismatch"]
         ck.same("R1", fi.where, "ramp axis " + tag, "the frequency ramp lies along the time axis (axis 0) and broadcasts over the sample shape",
                 not bm, found=str(bm)[:160], nontrivial=True)
